@@ -123,6 +123,34 @@ Proof.
 Qed.
 Print Assumptions C19_aux_matrix_block_is_phase_shift_complex.
 
+(* ------------------------------------------------------------------ phase shift, as_matrix *)
+Lemma gen_pmat_ok : pmat_src_ok gen_pmat.
+Proof. split; vm_compute; reflexivity. Qed.
+
+(** 4c. ProjectorControlledPhaseShift.as_matrix, expm(1j theta (a |0..0><0..0| + b 1)) with a, b read
+    from the source (diagonal of exponentials), is the defining phase shift; hence the c-phase
+    circuit has exactly the matrix as_matrix returns, and the auxiliary circuit has it on the
+    auxiliary-|0> block.  Any number of encoding qubits, any phase function. *)
+Theorem C19_phase_shift_as_matrix_is_phase_shift :
+  forall (K : Scalar) (L : ScalarLaws K) (ph : Q -> K), character ph ->
+  forall n : nat, meq n (pmat_mx ph gen_pmat) (shift_spec (ph 1%Q)).
+Proof. intros K L ph H n. apply pmat_is_shift; [exact H|exact gen_pmat_ok]. Qed.
+Print Assumptions C19_phase_shift_as_matrix_is_phase_shift.
+
+Theorem C19_phase_shift_circuits_equal_as_matrix :
+  forall (K : Scalar) (L : ScalarLaws K) (ph : Q -> K), character ph ->
+  forall n : nat,
+    ((1 <= n)%nat -> meq n (circuit_mx n ph (cphase_circuit gen_cphase n)) (pmat_mx ph gen_pmat)) /\
+    blk0 n (circuit_mx (Datatypes.S n) ph (aux_circuit gen_aux n)) (pmat_mx ph gen_pmat).
+Proof.
+  intros K L ph H n. split.
+  - intros Hn. eapply meq_trans; [apply C19_cphase_matrix_is_phase_shift_any_phase_function; assumption|].
+    apply meq_sym. apply C19_phase_shift_as_matrix_is_phase_shift; assumption.
+  - eapply blk0_meq; [apply C19_aux_matrix_block_is_phase_shift_any_phase_function; assumption|].
+    apply meq_sym. apply C19_phase_shift_as_matrix_is_phase_shift; assumption.
+Qed.
+Print Assumptions C19_phase_shift_circuits_equal_as_matrix.
+
 (* ------------------------------------------------------------------ eigenvalue transformation *)
 (** 0. (does not depend on the regenerated definitions) The loop bound before the repair, range(start, dim): every odd length >= 3 loses its
     last pair (length 3 uses one angle and applies the encoding once). *)
@@ -152,10 +180,10 @@ Ltac evt_unfold g :=
 
 Ltac evt_ok g :=
   unfold evt_src_ok; conjs; evt_unfold g;
-  [ intros len H; destruct (Z.even len) eqn:E;
-    [ apply Z.even_spec in E; destruct E as [k ->]; apply Z.eqb_eq; lia
-    | rewrite <- Z.negb_odd in E; apply Bool.negb_false_iff in E; apply Z.odd_spec in E;
-      destruct E as [k ->]; apply Z.eqb_neq; lia ]
+  [ (* the parity test, however it is written with ==, !=, % and `not` *)
+    intros len H; rewrite even_mod2;
+    repeat match goal with |- context [Z.eqb ?a ?b] => destruct (Z.eqb_spec a b) end;
+    cbn [negb andb orb]; first [reflexivity | exfalso; lia]
   | intros len H E; apply Z.even_spec in E; destruct E as [k ->]; lia
   | reflexivity | reflexivity
   | intros len H E; rewrite <- Z.negb_odd in E; apply Bool.negb_false_iff in E;
